@@ -155,7 +155,9 @@ impl ZipIntVec {
 
         if min_val == max_val {
             // All values are the same
-            let mut vec = Self::new(src.len(), min_val, min_val + 1);
+            // 1-bit range that contains min_val (below it when min_val is usize::MAX)
+            let lo = min_val.min(usize::MAX - 1);
+            let mut vec = Self::new(src.len(), lo, lo + 1);
             for i in 0..src.len() {
                 vec.set(i, min_val);
             }
@@ -182,7 +184,7 @@ impl ZipIntVec {
 
         if min_val == max_val {
             // All values are the same
-            let mut vec = Self::new(src.len(), min_val as usize, (min_val + 1) as usize);
+            let mut vec = Self::new(src.len(), min_val as usize, min_val as usize + 1);
             for i in 0..src.len() {
                 vec.set(i, min_val as usize);
             }
